@@ -22,3 +22,9 @@ NOT_DECIDED = ["the Jacobian constant n_epochs * ln(unit ratio) of the likelihoo
 # the plumbing this property's claim runs through (contracts/chain.py): listed here too, so that a change inside it is caught by THIS check
 from . import chain as CH   # noqa: E402
 CH.extend(CONTRACTS, CH.plumbing() + CH.tables())
+
+# how the priors are declared (which distribution, with which scale, tagged with which unit): default_linear_prior / default_nonlinear_prior /
+# FixedCompanionMass.dist, contracts stated in c09.py - the unit statement depends on them
+from . import c09 as _C09   # noqa: E402
+from .chain import clone as _clone9   # noqa: E402
+CONTRACTS += [_clone9(_c, callees=getattr(_c, "callees", None) or _C09.CALLEES, lib=_C09.LIB, hooks=_C09.HOOKS, home="c09") for _c in (_C09.linear + [_C09.nonlinear, _C09.fcm])]
